@@ -305,15 +305,23 @@ def check(tier="quick", seed=0, workers=None, only=None):
     cst, cinfo = conc.run_for("C15", tier, seed, workers, only) if not only else (engine.Stats(bound=None), {})
     viols += common.collect(cst, ("C15",))
     st.evaluations += cst.evaluations
+    # (d) the real backends over OS / runtime level fakes: every OS-level operation x every exception of the runtime's alphabet
+    from . import backends
+    bst, binfo = backends.run_for(tier, seed, workers, None) if not only else (engine.Stats(bound=1), {})
+    viols += common.collect(bst, ("C15",))
+    st.evaluations += bst.evaluations
+    st.nontrivial_outcomes |= bst.nontrivial_outcomes
     by_stage = {}
     for c in allc:
         by_stage[c[0]] = by_stage.get(c[0], 0) + 1
     cov = {"evaluations": total + st.evaluations, "distinct_nontrivial": len(classes) + len(st.nontrivial_outcomes), "exhaustive": True,
            "rule": ("(a) all single-point mutations (truncate/replace x10/delete/duplicate at every offset) of valid HTTP/1.1, HTTP/2, CONNECT and SOCKS5 conversations; "
                     "(a2) frame type x flags x stream id x payload at three positions, declared lengths, HPACK and :status variants; (b) all token sequences up to length %d; "
-                    "(c) every fault kind at every operation of every connection type; sync and async; distinct class = (stage, outcome exception class)" % (3 if tier == "quick" else 4)),
+                    "(c) every fault kind at every operation of every connection type; sync and async; "
+                    "(d) the real SyncBackend / AnyIOBackend / TrioBackend over OS-level fakes, every OS / runtime exception at every OS-level operation; distinct class = (stage, outcome exception class)" % (3 if tier == "quick" else 4)),
            "samples": [{"stage": c[0], "input": c[1], "bytes": c[2][:60].hex()} for c in allc[:: max(1, len(allc) // 6)][:6]],
-           "inputs_by_stage": by_stage, "outcome_classes": sorted(map(str, classes))[:60], "fault_enumeration_executions": st.evaluations, "concurrent_h2_peer_events": cinfo}
+           "inputs_by_stage": by_stage, "outcome_classes": sorted(map(str, classes))[:60], "fault_enumeration_executions": st.evaluations, "concurrent_h2_peer_events": cinfo, "real_backends": binfo}
     return {"level": "exploration", "coverage": cov, "violations": viols,
-            "assumptions": ["after the scripted bytes the peer closes; a mutation that leaves the conversation valid (or merely truncates a close-delimited body) may succeed",
+            "assumptions": ["(d): the OS / runtime failure alphabets are those listed in mc/simnet/fakeos.py (read off the socket / anyio / trio documentation and, for ssl.SSLError on anyio TLS streams, off anyio/streams/tls.py)",
+                            "after the scripted bytes the peer closes; a mutation that leaves the conversation valid (or merely truncates a close-delimited body) may succeed",
                             "class must match the cause: peer data => RemoteProtocolError (ProxyError at proxy/SOCKS stages), never LocalProtocolError / timeouts / connect or write errors"]}
